@@ -1394,3 +1394,18 @@ M("C04-benign-accessor-test-form", "C04", "src/interrogate/interrogateBuilder.cx
   "  fgroup = make_property->_get_function;\n  if (fgroup != nullptr) {\n    CPPFunctionGroup::Instances::const_iterator fi;\n    for (fi = fgroup->_instances.begin(); fi != fgroup->_instances.end(); ++fi) {\n      CPPInstance *function = (*fi);\n      if (function->_vis > V_public) {",
   "  fgroup = make_property->_get_function;\n  if (fgroup != nullptr) {\n    CPPFunctionGroup::Instances::const_iterator fi;\n    for (fi = fgroup->_instances.begin(); fi != fgroup->_instances.end(); ++fi) {\n      CPPInstance *function = (*fi);\n      if (!(function->_vis <= V_public)) {",
   benign=True)
+
+# ---------------------------------------------------------------- R07.13, R06.10 (F-C07j, F-C06h)
+M("C07-is-base-of-built-as-is-class", "C07", "src/cppparser/cppBison.yxx",
+  "type_trait(KW_IS_BASE_OF, $3, $5)", "type_trait(KW_IS_CLASS, $3, $5)",
+  expect="R07.13|")
+M("C07-convertible-drops-second-operand", "C07", "src/cppparser/cppBison.yxx",
+  "type_trait(KW_IS_CONVERTIBLE_TO, $3, $5)", "type_trait(KW_IS_CONVERTIBLE_TO, $3)",
+  expect="R07.13|")
+M("C06-trait-second-operand-not-printed", "C06", "src/cppparser/cppExpression.cxx",
+  "    if (_u._type_trait._arg != nullptr) {\n      out << \", \";\n      _u._type_trait._arg->output(out, indent_level, scope, false);\n    }\n", "",
+  expect="R06.10|output|T_type_trait|_u._type_trait._arg")
+M("C06-benign-trait-operand-printed-inline", "C06", "src/cppparser/cppExpression.cxx",
+  "    if (_u._type_trait._arg != nullptr) {\n      out << \", \";\n      _u._type_trait._arg->output(out, indent_level, scope, false);\n    }\n",
+  "    if (_u._type_trait._arg != nullptr) {\n      out << \", \" << *_u._type_trait._arg;\n    }\n",
+  benign=True)
